@@ -8,11 +8,13 @@ class Objective:
     """Element oracle of a dense target for cross: records every batch, checks the index domain, can inject faults.
 
     none_at    : return None at this (1-based) call
+    out        : the values are returned as an array of that dtype (they must be exact in it) or as a list of Python floats
     max_calls  : safety net against non-terminating runs: return None after that many calls (flag `runaway`)
     """
 
-    def __init__(self, F, none_at=None, max_calls=4000):
+    def __init__(self, F, none_at=None, max_calls=4000, out=None):
         self.F = np.asarray(F, dtype=float)
+        self.out = out             # how the batch of values is handed back: None (float64 array) / a dtype name / 'list'
         self.shape = self.F.shape
         self.none_at = none_at
         self.max_calls = max_calls
@@ -38,7 +40,10 @@ class Objective:
             self.runaway = True
             return None
         self.batches.append(I.copy())
-        return self.F[tuple(I.T)].copy()
+        y = self.F[tuple(I.T)].copy()
+        if self.out == "list":
+            return [float(v) for v in y]
+        return y if self.out is None else y.astype(self.out)
 
     @property
     def evaluated(self):
